@@ -399,6 +399,7 @@ def run(facts, rep, tier):
                                     "%s (%s) is reachable from the compile/check/format entry points: output can "
                                     "depend on it" % (cal, what), file=f.file, line=t.get("ln"), fn=p))
     readdir(F, rep, clo)
+    sorttotal(F, rep, clo)
     outstate(F, rep)
     rep.notes.append("NONDET: %d call(s) to listed nondeterminism sources inside the closure" % n_nd)
     rep.oblige("NONDET", "closure-scan", True, sample={"rule": "NONDET", "functions_scanned": len(clo),
@@ -411,6 +412,94 @@ SORTS = ("sort", "sort_unstable", "sort_by", "sort_by_key", "sort_unstable_by", 
 
 def fn_sorts(f):
     return any((callee_generic(t) or "").split("::")[-1] in SORTS for _, t in f.calls())
+
+
+KEY_OK = ("cmp", "partial_cmp", "as_str", "clone", "deref", "borrow", "as_ref", "then", "then_with", "reverse",
+          "to_owned", "to_string", "eq", "ne", "lt", "le", "gt", "ge", "max", "min")
+
+
+def sorttotal(F, rep, clo):
+    """SORTTOTAL — sorting is what turns hash order into a fixed order, so it has to be a TOTAL order and has to come
+    before anything that depends on adjacency:
+      * `sort_by_key` / `sort_by` / `sort_by_cached_key` whose key closure transforms the element (to_lowercase, len,
+        trim ...) can tie for different elements; a stable sort then keeps their incoming (hash) order;
+      * `dedup*` removes ADJACENT duplicates only: on a vector that has not been sorted yet, which duplicates survive
+        depends on the incoming (hash) order."""
+    from engines import derived_locals
+    n = 0
+    for p in sorted(clo):
+        f = F.fns[p]
+        if f.crate != "incan":
+            continue
+        sorts, dedups = [], []
+        for bi, t in f.calls():
+            g = callee_generic(t) or ""
+            last = g.split("::")[-1].split("<")[0]
+            if not ("slice" in g or "Vec" in g):
+                continue
+            if last.startswith("sort"):
+                sorts.append((bi, t, last))
+            elif last.startswith("dedup"):
+                dedups.append((bi, t, last))
+
+        def root(t):
+            pl = op_place(t["args"][0]) if t["args"] else None
+            cur = pl["l"] if pl is not None else None
+            for _ in range(8):
+                if cur is None or cur in f.names:
+                    return cur
+                d = f.single_def(cur)
+                if d is None:
+                    return cur
+                if d[2] == "call" and d[3]["args"] and ((callee_generic(d[3]) or "").endswith("deref_mut") or
+                                                       (callee_generic(d[3]) or "").endswith("::deref")):
+                    nx = op_place(d[3]["args"][0])
+                elif d[2] == "assign" and d[3]["r"] in ("ref", "cfd"):
+                    nx = d[3]["p"]
+                elif d[2] == "assign" and d[3]["r"] in ("use", "cast"):
+                    nx = op_place(d[3]["o"])
+                else:
+                    return cur
+                cur = nx["l"] if nx is not None else None
+            return cur
+
+        for bi, t, last in sorts:
+            if last in ("sort", "sort_unstable"):
+                continue
+            n += 1
+            key_calls = []
+            if len(t["args"]) > 1:
+                pl = op_place(t["args"][1])
+                dd = f.single_def(pl["l"]) if pl is not None and not pl["p"] else None
+                if dd and dd[2] == "assign" and dd[3]["r"] == "agg" and dd[3].get("ak") == "closure":
+                    for q in F.closure([dd[3]["def"]], pred=lambda x: x.startswith(p)):
+                        key_calls += [(callee_generic(t2) or callee_name(t2) or "").split("::")[-1].split("<")[0]
+                                      for _, t2 in F.fns[q].calls()]
+            bad = sorted({c for c in key_calls if c and c not in KEY_OK})
+            inst = "%s|%s@%s" % (fn_short(p), last, ",".join(bad) or "projection")
+            rep.oblige("SORTTOTAL", inst, not bad, sample={"rule": "SORTTOTAL", "fn": p, "line": t.get("ln"),
+                                                           "sort": last, "key_transforms": bad})
+            if bad:
+                rep.add(Finding("SORTTOTAL", "SORTTOTAL|%s|%s|%s" % (fn_short(p), last, ",".join(bad)),
+                                "%s sorts with `%s` on a key computed by %s: different elements can have equal keys, "
+                                "and the stable sort then leaves them in their incoming order — for data collected "
+                                "from a hash container that order differs from run to run" % (fn_short(p), last, bad),
+                                file=f.file, line=t.get("ln"), fn=p))
+        dom = f.dominators()
+        for bi, t, last in dedups:
+            n += 1
+            r = root(t)
+            ok = any(root(st) == r and sb in dom.get(bi, set()) for sb, st, _ in sorts)
+            inst = "%s|%s" % (fn_short(p), last)
+            rep.oblige("SORTTOTAL", inst + ":after-sort", ok, sample={"rule": "SORTTOTAL", "fn": p, "line": t.get("ln"),
+                                                                     "dedup_dominated_by_sort_of_same_vec": ok})
+            if not ok:
+                rep.add(Finding("SORTTOTAL", "SORTTOTAL|%s|%s-before-sort" % (fn_short(p), last),
+                                "%s calls `%s` on a vector that has not been sorted on every path before: only "
+                                "adjacent duplicates are removed, so which duplicates survive depends on the incoming "
+                                "order (hash order for data collected from a HashMap)" % (fn_short(p), last),
+                                file=f.file, line=t.get("ln"), fn=p))
+    rep.floor("SORTTOTAL", "keyed sorts and dedups in the output closure", n, 4)
 
 
 def readdir(F, rep, clo):
